@@ -122,6 +122,20 @@ Fixpoint brk (d : nat) (p : prog) : bool :=
 
 Definition bracketed (p : prog) : bool := brk 0 p.
 
+(* the WRITERS' discipline of the property statement ("mutate only inside `with tree:`"):
+   Acq/Rel balanced, never released below 0, every Write at depth >= 1 - Reads anywhere
+   (a thread may look at the tree without the lock; it just gets no snapshot guarantee) *)
+Fixpoint wbrk (d : nat) (p : prog) : bool :=
+  match p with
+  | [] => d =? 0
+  | EAcq :: r => wbrk (S d) r
+  | ERel :: r => match d with 0 => false | S d' => wbrk d' r end
+  | ERead :: r => wbrk d r
+  | EWrite :: r => (0 <? d) && wbrk d r
+  end.
+
+Definition disciplined (p : prog) : bool := wbrk 0 p.
+
 Definition writes (p : prog) : bool := existsb (ev_eqb EWrite) p.
 
 (* number of OUTERMOST critical sections of p (acquisitions at depth 0), started at depth d *)
